@@ -432,6 +432,8 @@ pub struct OrdSession<'a, C: OrdColl> {
     pub keys: i32,
     pub cap: usize,
     pub obs_every: u64,
+    /// ship the snapshot only with every n-th call (large trees); 1 = always
+    pub snap_every: u64,
     opcount: u64,
     pub version: i32,
     pub dead: bool,
@@ -439,7 +441,7 @@ pub struct OrdSession<'a, C: OrdColl> {
 
 impl<'a, C: OrdColl> OrdSession<'a, C> {
     pub fn new(tr: &'a mut Trace, keys: i32, cap: usize, obs_every: u64) -> Self {
-        let mut s = OrdSession { c: C::make(cap), tr, mine: BTreeSet::new(), keys, cap, obs_every, opcount: 0, version: 0, dead: false };
+        let mut s = OrdSession { c: C::make(cap), tr, mine: BTreeSet::new(), keys, cap, obs_every, snap_every: 1, opcount: 0, version: 0, dead: false };
         s.log_reset();
         s
     }
@@ -493,7 +495,11 @@ impl<'a, C: OrdColl> OrdSession<'a, C> {
     }
     fn state_fields(&mut self, force_obs: bool) -> String {
         if C::HAS_SNAP {
-            self.c.snap_json()
+            if force_obs || self.snap_every <= 1 || self.opcount % self.snap_every == 0 {
+                self.c.snap_json()
+            } else {
+                String::new()
+            }
         } else if force_obs || (self.obs_every > 0 && self.opcount % self.obs_every == 0) {
             self.obs_json()
         } else {
@@ -607,8 +613,10 @@ impl<'a, C: OrdColl> OrdSession<'a, C> {
     pub fn apply(&mut self, op: &OOp, arm: u64) -> Applied {
         self.opcount += 1;
         let desc = op.desc();
-        let st = if C::HAS_SNAP { self.c.canon() } else { format!("{:?}", self.mine) };
-        self.tr.pair(&st, &desc);
+        if self.snap_every <= 1 {
+            let st = if C::HAS_SNAP { self.c.canon() } else { format!("{:?}", self.mine) };
+            self.tr.pair(&st, &desc);
+        }
         self.tr.pre(&format!("{},\"out\":\"aborted\"", desc));
         let c = &mut self.c;
         let mut extra = String::new();
@@ -656,7 +664,9 @@ impl<'a, C: OrdColl> OrdSession<'a, C> {
                 });
                 if let Outcome::Ok(h) = o.out {
                     if h >= 0 {
-                        // dereference the handle at once
+                        // dereference the handle at once; should that read kill the process, the journal
+                        // still shows that the query itself returned `h`
+                        self.tr.pre(&format!("{},\"res\":{},\"out\":\"ok\",\"rdout\":\"aborted\"", desc, h));
                         let rd = observe(0, || c.read(h as u32));
                         match rd.out {
                             Outcome::Ok((rk, rv)) => {
@@ -949,6 +959,9 @@ pub struct RandCfg {
     pub steps: u64,
     pub seg_len: u64,
     pub inject: bool,
+    pub snap_every: u64,
+    /// false: never clear (lets the tree grow large)
+    pub clears: bool,
 }
 
 /// seeded random in-contract histories with handles held across insertions
@@ -956,6 +969,7 @@ pub fn run_random<C: OrdColl>(tr: &mut Trace, cfg: &RandCfg) {
     let mut rng = Rng::new(cfg.seed);
     let caps = [0usize, 1, 8, 9, 33];
     let mut s: OrdSession<C> = OrdSession::new(tr, cfg.keys, caps[(rng.next() % 5) as usize], 5);
+    s.snap_every = cfg.snap_every;
     // handles the harness holds (handle, key it was taken for); dropped at every deletion / clear,
     // and (lists) at every insertion
     let mut held: Vec<(u32, i32)> = vec![];
@@ -1041,7 +1055,7 @@ pub fn run_random<C: OrdColl>(tr: &mut Trace, cfg: &RandCfg) {
                 }
             }
             _ => {
-                if rng.chance(1, 5) {
+                if cfg.clears && rng.chance(1, 5) {
                     s.apply(&OOp::Clear, 0);
                     held.clear();
                 } else {
